@@ -105,11 +105,12 @@ def plan_C01(run):
         mc.lattice(run, "cast4-n3", ALL_KINDS, ["default"], 4, 3)
         mc.lattice(run, "cast4-n2-options", ALL_KINDS, ["tau0_call", "limit_call", "gamma_probe", "gamma_big"], 4, 2)
     else:
-        mc.lattice(run, "cast4-n4", ALL_KINDS, SETTINGS_ALL, 4, 4)
-        mc.lattice(run, "cast5-n3", ALL_KINDS, ["default", "gamma_big", "limit_call"], 5, 3)
-    n = q(run, 1500, 60000)
+        mc.lattice(run, "cast4-n3", ALL_KINDS, SETTINGS_ALL, 4, 3)
+        mc.lattice(run, "cast4-n4", ALL_KINDS, ["default"], 4, 4)
+        mc.lattice(run, "cast5-n3", ["PL", "TMF"], ["default"], 5, 3)
+    n = q(run, 1500, 30000)
     # corners of the numeric domain (+-20 beta, sigma 1e-4..10 beta, 16-player teams, beta over six orders of magnitude)
-    campaign(run, "extremes", {"C01"}, lambda s, r: drivers.extremes_campaign(s, r, q(run, 500, 20000), ops=("rate",)))
+    campaign(run, "extremes", {"C01"}, lambda s, r: drivers.extremes_campaign(s, r, q(run, 500, 10000), ops=("rate",)))
     campaign(run, "rate-campaign", {"C01"}, lambda s, r: drivers.rate_campaign(s, r, n))
     run.require_classes(RATE_CLASSES + ["gamma=probe", "gamma=big", "gamma=one", "gamma=zero"], "rate-campaign")
     return {"rule": "random rate() calls over the full numeric domain (2-8 teams x 1-8 players, five models, "
@@ -182,7 +183,7 @@ def plan_C06(run):
     campaign(run, "rate-campaign", {"C06"}, lambda s, r: drivers.rate_campaign(s, r, n))
     run.require_classes(RATE_CLASSES, "rate-campaign")
     # league histories: every step validated from the observed pre-state, which must be the previous post-state
-    campaign(run, "leagues", {"C06"}, lambda s, r: drivers.leagues(s, r, q(run, 15, 80), q(run, 30, 120), q(run, 100, 1200), predictions=False))
+    campaign(run, "leagues", {"C06"}, lambda s, r: drivers.leagues(s, r, q(run, 15, 48), q(run, 30, 120), q(run, 100, 800), predictions=False))
     return {"rule": "random rate() calls; sigma bounds per game",
             "assumptions": ["strict positivity is not demanded for a player whose prior sigma is 0 under limit_sigma (clamped to the prior)"]}
 
@@ -340,12 +341,9 @@ def process_stage(run, count):
 def sequences_stage(run, want):
     """Behaviours of the state machine replayed on live objects: random walks (and exhaustive depth 2 in thorough)."""
     for i, kind in enumerate(ALL_KINDS):
-        mc.sequences(run, kind, q(run, 6, 8), want, walks=q(run, 150, 2500), seed=run.seed + i)
-    if run.tier == "thorough":
-        for kind in ALL_KINDS:
-            mc.sequences(run, kind, 2, want)
-    else:
-        mc.sequences(run, ALL_KINDS[run.seed % 5], 1, want)
+        mc.sequences(run, kind, q(run, 6, 8), want, walks=q(run, 150, 1000), seed=run.seed + i)
+    # exhaustive: depth 1 (quick) / depth 2 (thorough: 21 757 states, every behaviour replayed) for one kind, chosen by the seed
+    mc.sequences(run, ALL_KINDS[run.seed % 5], q(run, 1, 2), want)
 
 
 def plan_C14(run):
